@@ -22,15 +22,15 @@ def meta_from_lines(lines):
             es = int(t[3])
         elif t[0] == "secset" and t[2] == "type":
             rela = int(t[3]) == 4
-        elif t[0] == "reladd":
+        elif t[0] in ("reladd", "reladdk"):
             ops.append(("add", int(t[3]), int(t[4]), int(t[5]), int(t[6])))
-        elif t[0] == "relget":
+        elif t[0] in ("relget", "relgetk"):
             ops.append(("get", int(t[2])))
-        elif t[0] == "relset":
+        elif t[0] in ("relset", "relsetk"):
             ops.append(("set", int(t[2]), int(t[3]), int(t[4]), int(t[5]), int(t[6])))
-        elif t[0] == "relswap":
+        elif t[0] in ("relswap", "relswapk"):
             ops.append(("swap", int(t[2]), int(t[3])))
-        elif t[0] == "relnum":
+        elif t[0] in ("relnum", "relnumk"):
             ops.append(("num",))
         elif t[0] == "getdata":
             ops.append(("data",))
@@ -41,27 +41,30 @@ def meta_from_lines(lines):
 PADBYTE = 0xEE
 
 
-def mk_case(cid, cfg, rela, ops, pad=0, machine=None):
+def mk_case(cid, cfg, rela, ops, pad=0, machine=None, handle=None):
     """[pad]: the table's entry size exceeds the entry structure by [pad] bytes (each added entry is followed by
     that many filler bytes, so that entry i sits at i * sh_entsize); [machine]: e_machine of the object"""
     c32 = cfg[0] == "32"
     es = ((12 if rela else 8) if c32 else (24 if rela else 16)) + pad
+    # [handle]: every operation goes through ONE accessor object kept alive, constructed before ("early") or after
+    # ("late") the section's entry size is set; otherwise a new accessor is made for each operation
     lines = ["ctor plain", "create %s %s" % cfg] + (["hdr machine %d" % machine] if machine is not None else []) + \
-            ["addsec " + hx(b".rel"), "secset 2 type %d" % (4 if rela else 9),
-             "secset 2 entsize %d" % es, "secset 2 link 0"]
+            ["addsec " + hx(b".rel"), "secset 2 type %d" % (4 if rela else 9)] + (["relnew 0 2"] if handle == "early" else []) + \
+            ["secset 2 entsize %d" % es, "secset 2 link 0"] + (["relnew 0 2"] if handle == "late" else [])
+    tgt = "k 0" if handle else " 2"
     for o in ops:
         if o[0] == "add":
-            lines.append("reladd 2 %d %d %d %d %d" % (1 if rela else 0, o[1], o[2], o[3], o[4]))
+            lines.append("reladd%s %d %d %d %d %d" % (tgt, 1 if rela else 0, o[1], o[2], o[3], o[4]))
             if pad:
                 lines.append("dapp 2 " + hx(bytes([PADBYTE]) * pad))
         elif o[0] == "get":
-            lines.append("relget 2 %d" % o[1])
+            lines.append("relget%s %d" % (tgt, o[1]))
         elif o[0] == "set":
-            lines.append("relset 2 %d %d %d %d %d" % o[1:])
+            lines.append("relset%s %d %d %d %d %d" % ((tgt,) + tuple(o[1:])))
         elif o[0] == "swap":
-            lines.append("relswap 2 %d %d" % (o[1], o[2]))
+            lines.append("relswap%s %d %d" % (tgt, o[1], o[2]))
         elif o[0] == "num":
-            lines.append("relnum 2")
+            lines.append("relnum" + tgt)
         elif o[0] == "data":
             lines.append("getdata 2")
     return Case(cid, lines, meta_from_lines(lines))
@@ -189,7 +192,7 @@ def generate(rng, tier):
         # tables whose entry size is larger than the entry structure
         machine = rng.choice([None, None, 0, 3, 8, 8, 10, 20, 21, 40, 43, 62, 183, 243, rng.randrange(0, 2**16)])
         pad = rng.choice([0, 0, 0, 4, 8, 16, 1])
-        cases.append(mk_case("r%d" % i, cfg, rela, ops, pad=pad, machine=machine))
+        cases.append(mk_case("r%d" % i, cfg, rela, ops, pad=pad, machine=machine, handle=[None, None, None, "early", "late"][i % 5]))
     return cases
 
 
